@@ -214,154 +214,61 @@ func (c *Ctx) reinlineRule(reach []*core.FuncInfo) {
 				continue
 			}
 			n++
-			keyArg, schArg := call.Args[1], call.Args[2]
-			same := func(a, b ast.Expr) bool {
-				if sameExpr(a, b) {
-					return true
-				}
-				// one is a local holding the other
-				for _, pr := range [][2]ast.Expr{{a, b}, {b, a}} {
-					if o := core.ObjOf(info, pr[0]); o != nil {
-						if defs := c.P.Locals(fi).Defs[o]; len(defs) == 1 && defs[0].Kind == core.DefAssign && sameExpr(defs[0].Expr, pr[1]) {
-							return true
-						}
-					}
-				}
-				return false
-			}
-			// the complexity predicate applied to an analysis, directly or through a local holding its result:
-			// returns the call
-			complexCall := func(e ast.Expr) *ast.CallExpr {
-				e = core.Unparen(e)
-				if o := core.ObjOf(info, e); o != nil {
-					if _, isID := e.(*ast.Ident); isID {
-						if defs := c.P.Locals(fi).Defs[o]; len(defs) == 1 && defs[0].Kind == core.DefAssign {
-							e = core.Unparen(defs[0].Expr)
-						}
-					}
-				}
-				if cc, ok := e.(*ast.CallExpr); ok && c.isComplexCall(fi, cc) {
-					return cc
-				}
-				return nil
-			}
-			mentionsComplex := func(root ast.Node) bool {
-				found := false
-				ast.Inspect(root, func(m ast.Node) bool {
-					if x, ok := m.(ast.Expr); ok && complexCall(x) != nil {
-						found = true
-					}
-					return !found
-				})
-				return found
-			}
-			// atoms of a raise condition
-			type atoms struct{ dirEq, complexOK, other bool }
-			var dirArgs []ast.Expr
-			flagVal := false // the value the returned flag has before the assignment under evaluation
-			var eval func(e ast.Expr, dirEq, cx bool, flag types.Object) (bool, bool)
-			eval = func(e ast.Expr, dirEq, cx bool, flag types.Object) (bool, bool) {
-				e = core.Unparen(e)
-				switch x := e.(type) {
-				case *ast.Ident:
-					if flag != nil && core.ObjOf(info, x) == flag {
-						return flagVal, true
-					}
-					if cc := complexCall(x); cc != nil {
-						return eval(cc, dirEq, cx, flag)
-					}
-					if tv, ok := info.Types[x]; ok && tv.Value != nil {
-						return tv.Value.String() == "true", true
-					}
-				case *ast.UnaryExpr:
-					if x.Op == token.NOT {
-						v, ok := eval(x.X, dirEq, cx, flag)
-						return !v, ok
-					}
-				case *ast.BinaryExpr:
-					switch x.Op {
-					case token.LAND, token.LOR:
-						a, ak := eval(x.X, dirEq, cx, flag)
-						b, bk := eval(x.Y, dirEq, cx, flag)
-						if x.Op == token.LAND {
-							return a && b, ak && bk
-						}
-						return a || b, ak && bk
-					case token.EQL, token.NEQ:
-						for _, pr := range [][2]ast.Expr{{x.X, x.Y}, {x.Y, x.X}} {
-							s, isC := core.ConstString(info, pr[1])
-							dir, isCall := core.Unparen(pr[0]).(*ast.CallExpr)
-							if !isC || s != "#/definitions" || !isCall || len(dir.Args) != 1 {
-								continue
-							}
-							if cal := c.P.CalleeAny(fi, dir); cal == nil || cal.FullName() != "path.Dir" {
-								continue
-							}
-							dirArgs = append(dirArgs, dir.Args[0])
-							return dirEq == (x.Op == token.EQL), true
-						}
-					}
-				case *ast.CallExpr:
-					if c.isComplexCall(fi, x) {
-						// the analysed schema must be the one written
-						if sel, ok := core.Unparen(x.Fun).(*ast.SelectorExpr); ok {
-							if o := core.ObjOf(info, sel.X); o != nil {
-								for _, d := range c.P.Locals(fi).Defs[o] {
-									if sc, ok := core.Unparen(d.Expr).(*ast.CallExpr); ok && len(sc.Args) == 1 {
-										if v := c.fieldOfLiteral(fi, info, sc.Args[0], "Schema", 0); v != nil && same(v, schArg) {
-											return cx, true
-										}
-									}
-								}
-							}
-						}
-					}
-				}
-				return false, false
-			}
+			ev := &reinEval{c: c, fi: fi, info: info, key: call.Args[1], sch: call.Args[2]}
+			// the conditions under which the returned flag is raised after the write
 			type raise struct {
-				rc     func(dirEq, cx bool) (bool, bool)
-				assign bool // flag = <expr>: the old value must survive; if <cond> { flag = true } keeps it by construction
+				expr   ast.Expr
+				flag   types.Object
+				assign bool // flag = <expr> / return <expr>: the old value of the flag must survive
 			}
-			var raiseConds []raise
+			var raises []raise
 			ast.Inspect(fi.Decl.Body, func(nd ast.Node) bool {
 				switch x := nd.(type) {
 				case *ast.AssignStmt:
 					if x.Pos() < call.Pos() || len(x.Lhs) != 1 || len(x.Rhs) != 1 || !core.IsBool(info.TypeOf(x.Lhs[0])) || !c.flowsToReturn(fi, x.Lhs[0]) {
 						return true
 					}
-					if !mentionsComplex(x.Rhs[0]) {
-						return true
+					if ev.mentionsComplex(x.Rhs[0], 0) {
+						raises = append(raises, raise{x.Rhs[0], core.ObjOf(info, x.Lhs[0]), true})
 					}
-					flag := core.ObjOf(info, x.Lhs[0])
-					rhs := x.Rhs[0]
-					raiseConds = append(raiseConds, raise{func(dirEq, cx bool) (bool, bool) { return eval(rhs, dirEq, cx, flag) }, true})
 				case *ast.IfStmt:
-					if x.Pos() < call.Pos() || x.Init != nil {
-						return true
-					}
-					if !mentionsComplex(x.Cond) {
+					if x.Pos() < call.Pos() || x.Init != nil || !ev.mentionsComplex(x.Cond, 0) {
 						return true
 					}
 					for _, bs := range x.Body.List {
 						if as, ok := bs.(*ast.AssignStmt); ok && len(as.Lhs) == 1 && len(as.Rhs) == 1 && c.flowsToReturn(fi, as.Lhs[0]) {
 							if tv, isC := info.Types[as.Rhs[0]]; isC && tv.Value != nil && tv.Value.String() == "true" {
-								cond := x.Cond
-								raiseConds = append(raiseConds, raise{func(dirEq, cx bool) (bool, bool) { return eval(cond, dirEq, cx, nil) }, false})
+								raises = append(raises, raise{x.Cond, nil, false})
 							}
 						}
 					}
+				case *ast.ReturnStmt:
+					// return flag || <condition>, nil
+					if x.Pos() < call.Pos() || len(x.Results) < 1 || !core.IsBool(info.TypeOf(x.Results[0])) || !ev.mentionsComplex(x.Results[0], 0) {
+						return true
+					}
+					// the flag: a bool local of the expression that is not itself the complexity result
+					var flag types.Object
+					ast.Inspect(x.Results[0], func(m ast.Node) bool {
+						if id, ok := m.(*ast.Ident); ok {
+							if o, isVar := info.Uses[id].(*types.Var); isVar && core.IsBool(o.Type()) && !ev.mentionsComplex(id, 0) {
+								flag = o
+							}
+						}
+						return true
+					})
+					raises = append(raises, raise{x.Results[0], flag, true})
 				}
 				return true
 			})
 			ok, why := false, "no assignment to the returned flag after the write looks at isAnalyzedAsComplex() of the schema written"
-			for _, rr := range raiseConds {
-				rc := rr.rc
-				dirArgs = nil
+			for _, r := range raises {
+				ev.flag, ev.placeBad, ev.dirSeen = r.flag, "", 0
 				good, decided := true, true
+				ev.flagVal = false
 				for _, dirEq := range []bool{false, true} {
 					for _, cx := range []bool{false, true} {
-						v, k := rc(dirEq, cx)
+						v, k := ev.eval(r.expr, dirEq, cx, 0)
 						if !k {
 							decided = false
 						}
@@ -370,39 +277,31 @@ func (c *Ctx) reinlineRule(reach []*core.FuncInfo) {
 						}
 					}
 				}
-				// monotone: a flag already raised (by the re-pointing of other referers) must stay raised
 				monotone := true
-				flagVal = rr.assign
-				for _, dirEq := range []bool{false, true} {
-					for _, cx := range []bool{false, true} {
-						if v, k := rc(dirEq, cx); rr.assign && k && !v {
-							monotone = false
+				if r.assign && r.flag != nil {
+					ev.flagVal = true
+					for _, dirEq := range []bool{false, true} {
+						for _, cx := range []bool{false, true} {
+							if v, k := ev.eval(r.expr, dirEq, cx, 0); k && !v {
+								monotone = false
+							}
 						}
 					}
-				}
-				flagVal = false
-				switch {
-				case decided && good && !monotone:
-					good = false
-					why = "the assignment can clear a flag that was already raised (the flag is not on the left of an ||): a re-run requested because other referers were re-pointed to an anonymous pointer is cancelled when the schema is not complex"
+					ev.flagVal = false
 				}
 				switch {
 				case !decided:
 					why = "the condition raising the returned flag is not a combination of path.Dir(<key>) == \"#/definitions\" and isAnalyzedAsComplex() of the schema written"
-				case !good && monotone:
-					why = "the returned flag is not raised exactly when the written schema is complex and its new place is not a top-level definition"
 				case !good:
+					why = "the returned flag is not raised exactly when the written schema is complex and its new place is not a top-level definition"
+				case !monotone:
+					why = "the assignment can clear a flag that was already raised (the flag is not on the left of an ||): a re-run requested because other referers were re-pointed to an anonymous pointer is cancelled when the schema is not complex"
+				case ev.placeBad != "":
+					why = ev.placeBad
+				case ev.dirSeen == 0:
+					why = "the condition does not test the place the schema was written at"
 				default:
-					placeOK := len(dirArgs) > 0
-					for _, a := range dirArgs {
-						if !same(a, keyArg) {
-							placeOK = false
-							why = "the top-level test looks at " + exprStr(a) + " but the schema was written at " + exprStr(keyArg)
-						}
-					}
-					if placeOK {
-						ok = true
-					}
+					ok = true
 				}
 				if ok {
 					break
@@ -416,6 +315,242 @@ func (c *Ctx) reinlineRule(reach []*core.FuncInfo) {
 	if n < 1 {
 		c.S.Note("GUARD-REINLINE: no flag-returning phase writes a schema back inline (one on the pinned tree: stripOAIGenForRef)")
 	}
+}
+
+// reinEval evaluates a raise condition of GUARD-REINLINE over the two atoms "the place is a top-level definition"
+// (dirEq) and "the schema written is complex" (cx), inside one function; helpers that compute the condition from
+// the key and the schema they are handed are evaluated with a sub-evaluator.
+type reinEval struct {
+	c        *Ctx
+	fi       *core.FuncInfo
+	info     *types.Info
+	key, sch ast.Expr // the key and the schema of the write, as expressions of fi
+	flag     types.Object
+	flagVal  bool
+	placeBad string
+	dirSeen  int
+}
+
+func (r *reinEval) local(e ast.Expr) ast.Expr {
+	e = core.Unparen(e)
+	if o := core.ObjOf(r.info, e); o != nil {
+		if _, isID := e.(*ast.Ident); isID {
+			if defs := r.c.P.Locals(r.fi).Defs[o]; len(defs) == 1 && defs[0].Kind == core.DefAssign {
+				return core.Unparen(defs[0].Expr)
+			}
+		}
+	}
+	return e
+}
+
+func (r *reinEval) same(a, b ast.Expr) bool {
+	if a == nil || b == nil {
+		return false
+	}
+	if sameExpr(a, b) || sameExpr(r.local(a), b) || sameExpr(a, r.local(b)) || sameExpr(r.local(a), r.local(b)) {
+		return true
+	}
+	oa, ob := core.ObjOf(r.info, a), core.ObjOf(r.info, b)
+	return oa != nil && oa == ob
+}
+
+// complexCall: the complexity predicate applied to an analysis of the written schema (through a local).
+func (r *reinEval) complexCall(e ast.Expr) *ast.CallExpr {
+	if cc, ok := r.local(e).(*ast.CallExpr); ok && r.c.isComplexCall(r.fi, cc) {
+		return cc
+	}
+	return nil
+}
+
+// helperCall: e is (a local holding the first result of) a call to a module function returning a bool first.
+func (r *reinEval) helperCall(e ast.Expr) *ast.CallExpr {
+	e = core.Unparen(e)
+	if o := core.ObjOf(r.info, e); o != nil {
+		if _, isID := e.(*ast.Ident); isID {
+			for _, d := range r.c.P.Locals(r.fi).Defs[o] {
+				if (d.Kind == core.DefMulti && d.Index == 0 || d.Kind == core.DefAssign) && d.Expr != nil {
+					e = core.Unparen(d.Expr)
+				}
+			}
+		}
+	}
+	call, ok := e.(*ast.CallExpr)
+	if !ok || r.c.isComplexCall(r.fi, call) {
+		return nil
+	}
+	callee := r.c.P.StaticCallee(r.fi, call)
+	if callee == nil || r.c.P.Funcs[callee] == nil {
+		return nil
+	}
+	res := callee.Type().(*types.Signature).Results()
+	if res.Len() < 1 || !core.IsBool(res.At(0).Type()) {
+		return nil
+	}
+	return call
+}
+
+func (r *reinEval) mentionsComplex(root ast.Node, depth int) bool {
+	if depth > 2 {
+		return false
+	}
+	found := false
+	ast.Inspect(root, func(m ast.Node) bool {
+		x, ok := m.(ast.Expr)
+		if !ok || found {
+			return !found
+		}
+		if r.complexCall(x) != nil {
+			found = true
+		} else if hc := r.helperCall(x); hc != nil {
+			if g := r.c.P.Funcs[r.c.P.StaticCallee(r.fi, hc)]; g != nil && g.Decl != nil && g.Decl.Body != nil {
+				sub := &reinEval{c: r.c, fi: g, info: r.c.info(g)}
+				if sub.mentionsComplex(g.Decl.Body, depth+1) {
+					found = true
+				}
+			}
+		}
+		return !found
+	})
+	return found
+}
+
+func (r *reinEval) eval(e ast.Expr, dirEq, cx bool, depth int) (bool, bool) {
+	if depth > 3 {
+		return false, false
+	}
+	e = core.Unparen(e)
+	switch x := e.(type) {
+	case *ast.Ident:
+		if r.flag != nil && core.ObjOf(r.info, x) == r.flag {
+			return r.flagVal, true
+		}
+		if tv, ok := r.info.Types[x]; ok && tv.Value != nil {
+			return tv.Value.String() == "true", true
+		}
+		if cc := r.complexCall(x); cc != nil {
+			return r.eval(cc, dirEq, cx, depth)
+		}
+		if hc := r.helperCall(x); hc != nil {
+			return r.evalHelper(hc, dirEq, cx, depth)
+		}
+	case *ast.UnaryExpr:
+		if x.Op == token.NOT {
+			v, ok := r.eval(x.X, dirEq, cx, depth)
+			return !v, ok
+		}
+	case *ast.BinaryExpr:
+		switch x.Op {
+		case token.LAND, token.LOR:
+			a, ak := r.eval(x.X, dirEq, cx, depth)
+			b, bk := r.eval(x.Y, dirEq, cx, depth)
+			if x.Op == token.LAND {
+				return a && b, ak && bk
+			}
+			return a || b, ak && bk
+		case token.EQL, token.NEQ:
+			for _, pr := range [][2]ast.Expr{{x.X, x.Y}, {x.Y, x.X}} {
+				s, isC := core.ConstString(r.info, pr[1])
+				dir, isCall := core.Unparen(pr[0]).(*ast.CallExpr)
+				if !isC || s != "#/definitions" || !isCall || len(dir.Args) != 1 {
+					continue
+				}
+				if cal := r.c.P.CalleeAny(r.fi, dir); cal == nil || cal.FullName() != "path.Dir" {
+					continue
+				}
+				r.dirSeen++
+				if !r.same(dir.Args[0], r.key) {
+					r.placeBad = "the top-level test looks at " + exprStr(dir.Args[0]) + " but the schema was written at " + exprStr(r.key)
+				}
+				return dirEq == (x.Op == token.EQL), true
+			}
+		}
+	case *ast.CallExpr:
+		if r.c.isComplexCall(r.fi, x) {
+			// the analysed schema must be the one written
+			if sel, ok := core.Unparen(x.Fun).(*ast.SelectorExpr); ok {
+				if o := core.ObjOf(r.info, sel.X); o != nil {
+					for _, d := range r.c.P.Locals(r.fi).Defs[o] {
+						if sc, ok := core.Unparen(d.Expr).(*ast.CallExpr); ok && len(sc.Args) >= 1 {
+							if v := r.c.fieldOfLiteral(r.fi, r.info, sc.Args[0], "Schema", 0); v != nil && r.same(v, r.sch) {
+								return cx, true
+							}
+							// a helper that analyses its argument: analyzeChild(sch, …)
+							for _, a := range sc.Args {
+								if r.same(a, r.sch) {
+									return cx, true
+								}
+							}
+						}
+					}
+				}
+			}
+			return false, false
+		}
+		if hc := r.helperCall(x); hc != nil {
+			return r.evalHelper(hc, dirEq, cx, depth)
+		}
+	}
+	return false, false
+}
+
+// evalHelper evaluates a helper g(…key…, …schema…) that computes the condition: its substantive return (the one
+// that looks at the complexity predicate) is evaluated with g's own parameters standing for the key and the schema;
+// every other return must be the constant false (not an inline schema: nothing re-inlined).
+func (r *reinEval) evalHelper(call *ast.CallExpr, dirEq, cx bool, depth int) (bool, bool) {
+	g := r.c.P.Funcs[r.c.P.StaticCallee(r.fi, call)]
+	if g == nil || g.Decl == nil || g.Decl.Body == nil {
+		return false, false
+	}
+	ginfo := r.c.info(g)
+	sub := &reinEval{c: r.c, fi: g, info: ginfo}
+	i := 0
+	for _, f := range g.Decl.Type.Params.List {
+		for _, nm := range f.Names {
+			if i < len(call.Args) {
+				if r.same(call.Args[i], r.key) {
+					sub.key = nm
+				}
+				if r.same(call.Args[i], r.sch) {
+					sub.sch = nm
+				}
+			}
+			i++
+		}
+		if len(f.Names) == 0 {
+			i++
+		}
+	}
+	var main ast.Expr
+	okOthers := true
+	ast.Inspect(g.Decl.Body, func(nd ast.Node) bool {
+		if _, isLit := nd.(*ast.FuncLit); isLit {
+			return false
+		}
+		ret, ok := nd.(*ast.ReturnStmt)
+		if !ok || len(ret.Results) < 1 {
+			return true
+		}
+		if sub.mentionsComplex(ret.Results[0], depth+1) {
+			main = ret.Results[0]
+			return true
+		}
+		if tv, isC := ginfo.Types[ret.Results[0]]; !isC || tv.Value == nil || tv.Value.String() != "false" {
+			okOthers = false
+		}
+		return true
+	})
+	if main == nil || !okOthers {
+		return false, false
+	}
+	v, k := sub.eval(main, dirEq, cx, depth+1)
+	r.dirSeen += sub.dirSeen
+	if sub.placeBad != "" {
+		r.placeBad = sub.placeBad + " (in " + g.Name() + ")"
+	}
+	if sub.key == nil && sub.dirSeen > 0 {
+		r.placeBad = "the helper " + g.Name() + " does not receive the key the schema was written at"
+	}
+	return v, k
 }
 
 // prefixSepRule (C04, ENC-PREFIXSEP): where a key is recognised as lying under another JSON pointer by a prefix
@@ -841,12 +976,30 @@ func (c *Ctx) isDefsJoin(fi *core.FuncInfo, e ast.Expr, depth int) bool {
 	if !ok {
 		return false
 	}
+	// a module helper (function or method) whose single result is such a join: d.pointer()
+	if g := c.singleReturn(fi, j); g != nil {
+		return c.isDefsJoin(g.fi, g.e, depth+1)
+	}
 	jc := c.P.CalleeAny(fi, j)
 	if jc == nil || jc.FullName() != "path.Join" || len(j.Args) != 2 {
 		return false
 	}
 	s, isConst := core.ConstString(info, j.Args[0])
 	return isConst && s == "#/definitions"
+}
+
+// singleReturn: the call is to a module function whose body is a single return of one expression.
+func (c *Ctx) singleReturn(fi *core.FuncInfo, call *ast.CallExpr) *exprIn {
+	callee := c.P.StaticCallee(fi, call)
+	g := c.P.Funcs[callee]
+	if callee == nil || g == nil || g.Decl == nil || g.Decl.Body == nil || len(g.Decl.Body.List) != 1 {
+		return nil
+	}
+	ret, ok := g.Decl.Body.List[0].(*ast.ReturnStmt)
+	if !ok || len(ret.Results) != 1 {
+		return nil
+	}
+	return &exprIn{g, ret.Results[0]}
 }
 
 // paramIndexOf: index of o among the declared parameters of fi (receiver excluded).
@@ -993,10 +1146,29 @@ func (c *Ctx) raisesRerunFlag(fi *core.FuncInfo, site *ast.CallExpr, ref ast.Exp
 func (c *Ctx) isCanonicalRef(fi *core.FuncInfo, ref ast.Expr, site *ast.CallExpr) (bool, string) {
 	info := c.info(fi)
 	// (a) spec.MustCreateRef(path.Join("#/definitions", X))
+	var isJoinDefsIn func(gfi *core.FuncInfo, e ast.Expr, depth int) bool
+	isJoinDefsIn = func(gfi *core.FuncInfo, e ast.Expr, depth int) bool {
+		call, ok := core.Unparen(e).(*ast.CallExpr)
+		if !ok || depth > 2 {
+			return false
+		}
+		if g := c.singleReturn(gfi, call); g != nil {
+			return isJoinDefsIn(g.fi, g.e, depth+1)
+		}
+		cal := c.P.CalleeAny(gfi, call)
+		if cal == nil || cal.FullName() != "github.com/go-openapi/spec.MustCreateRef" || len(call.Args) != 1 {
+			return false
+		}
+		return c.isDefsJoin(gfi, call.Args[0], 0)
+	}
 	isJoinDefs := func(e ast.Expr) bool {
 		call, ok := core.Unparen(e).(*ast.CallExpr)
 		if !ok {
 			return false
+		}
+		// a constructor of the module whose single result is the canonical reference: name.ref()
+		if g := c.singleReturn(fi, call); g != nil {
+			return isJoinDefsIn(g.fi, g.e, 1)
 		}
 		cal := c.P.CalleeAny(fi, call)
 		if cal == nil || cal.FullName() != "github.com/go-openapi/spec.MustCreateRef" || len(call.Args) != 1 {
@@ -1142,7 +1314,7 @@ func (c *Ctx) progressRule(reach []*core.FuncInfo) {
 						return true
 					}
 					// the test may also come after the loop when nothing changes the collection in between
-					if rs.Pos() < nd.Pos() && c.collectionMutated(fi, x) {
+					if rs.Pos() < nd.Pos() && c.collectionMutated(fi, x, rs.Pos(), nd.Pos()) {
 						return true
 					}
 					for _, st := range rs.Body.List {
@@ -1527,17 +1699,18 @@ func (c *Ctx) isTopLevelTest(fi *core.FuncInfo, e ast.Expr, depth int) bool {
 	return false
 }
 
-// collectionMutated: the function stores into, deletes from, appends to or reassigns the collection (after its
-// definition).
-func (c *Ctx) collectionMutated(fi *core.FuncInfo, x ast.Expr) bool {
+// collectionMutated: between the two positions the function stores into, deletes from or reassigns the collection.
+func (c *Ctx) collectionMutated(fi *core.FuncInfo, x ast.Expr, from, to token.Pos) bool {
 	info := c.info(fi)
 	o := core.ObjOf(info, x)
 	if o == nil {
 		return true
 	}
 	mutated := false
-	defs := 0
 	ast.Inspect(fi.Decl.Body, func(n ast.Node) bool {
+		if n == nil || n.Pos() < from || n.Pos() > to {
+			return n == nil || n.End() >= from
+		}
 		switch y := n.(type) {
 		case *ast.AssignStmt:
 			for _, l := range y.Lhs {
@@ -1546,7 +1719,7 @@ func (c *Ctx) collectionMutated(fi *core.FuncInfo, x ast.Expr) bool {
 					mutated = true
 				}
 				if id, ok := l.(*ast.Ident); ok && core.ObjOf(info, id) == o {
-					defs++
+					mutated = true
 				}
 			}
 		case *ast.CallExpr:
@@ -1556,5 +1729,5 @@ func (c *Ctx) collectionMutated(fi *core.FuncInfo, x ast.Expr) bool {
 		}
 		return true
 	})
-	return mutated || defs > 1
+	return mutated
 }
